@@ -24,6 +24,58 @@ type factCtx struct {
 	use   token.Pos
 	facts []guardFact
 	fn    ast.Node // enclosing FuncDecl/FuncLit
+	depth int
+}
+
+// boolDef: id is a boolean local of the enclosing function defined exactly once, by
+// `id := <expr>` (never assigned again, address never taken); returns <expr> and the end of
+// the defining statement.
+func (fc *factCtx) boolDef(id *ast.Ident) (ast.Expr, token.Pos) {
+	obj, _ := fc.info.Uses[id].(*types.Var)
+	if obj == nil || obj.IsField() || fc.fn == nil {
+		return nil, token.NoPos
+	}
+	if b, ok := obj.Type().Underlying().(*types.Basic); !ok || b.Kind() != types.Bool {
+		return nil, token.NoPos
+	}
+	if obj.Pos() < fc.fn.Pos() || obj.Pos() >= fc.fn.End() {
+		return nil, token.NoPos // a captured variable: other closures may assign it
+	}
+	var def ast.Expr
+	var end token.Pos
+	n := 0
+	ast.Inspect(fc.fn, func(nd ast.Node) bool {
+		switch s := nd.(type) {
+		case *ast.AssignStmt:
+			for i, l := range s.Lhs {
+				lid, ok := l.(*ast.Ident)
+				if !ok || (fc.info.Defs[lid] != types.Object(obj) && fc.info.Uses[lid] != types.Object(obj)) {
+					continue
+				}
+				n++
+				if s.Tok == token.DEFINE && len(s.Lhs) == len(s.Rhs) {
+					def, end = s.Rhs[i], s.End()
+				} else {
+					n++
+				}
+			}
+		case *ast.ValueSpec:
+			for _, nm := range s.Names {
+				if fc.info.Defs[nm] == types.Object(obj) {
+					n += 2
+				}
+			}
+		case *ast.UnaryExpr:
+			if lid, ok := s.X.(*ast.Ident); ok && s.Op == token.AND && fc.info.Uses[lid] == types.Object(obj) {
+				n += 2
+			}
+		}
+		return true
+	})
+	if n != 1 || def == nil || end >= id.Pos() {
+		return nil, token.NoPos
+	}
+	return def, end
 }
 
 func terminates(b *ast.BlockStmt) bool {
@@ -55,6 +107,16 @@ func (fc *factCtx) add(cond ast.Expr, pol bool, from token.Pos, loop ast.Node) {
 			fc.add(c.X, !pol, from, loop)
 			return
 		}
+	case *ast.Ident:
+		// a named condition: `last := i+1 >= len(parts); if last {…}` states the defining
+		// comparison; the fact dates from the definition, so a later assignment to one of its
+		// operands (before the test or after it) invalidates it like any other
+		if def, end := fc.boolDef(c); def != nil && fc.depth < 4 {
+			fc.depth++
+			fc.add(def, pol, end, loop)
+			fc.depth--
+			return
+		}
 	case *ast.BinaryExpr:
 		if c.Op == token.LAND && pol {
 			fc.add(c.X, true, from, loop)
@@ -77,6 +139,7 @@ func newFactCtx(info *types.Info, path []ast.Node) *factCtx {
 		return fc
 	}
 	fc.use = path[0].Pos()
+	fc.fn = enclosingFuncNode(path)
 	for i := 0; i+1 < len(path); i++ {
 		child, parent := path[i], path[i+1]
 		switch p := parent.(type) {
@@ -229,8 +292,15 @@ func (fc *factCtx) assignedBetween(objs map[types.Object]bool, from, to token.Po
 	ast.Inspect(fc.fn, func(n ast.Node) bool {
 		switch s := n.(type) {
 		case *ast.AssignStmt:
+			at := s.Pos()
+			if s.Pos() <= to && to < s.End() {
+				// the window ends inside this very statement (`xs = f(xs, i)` with the use among
+				// the operands): the operands are evaluated before the assignment takes effect,
+				// so it counts only through a loop
+				at = s.End()
+			}
 			for _, l := range s.Lhs {
-				check(l, s.Pos())
+				check(l, at)
 			}
 		case *ast.IncDecStmt:
 			check(s.X, s.Pos())
